@@ -39,3 +39,33 @@ Example C15_examples :
   accepts token_table rules start_rule "Man(a1-4)" = Some false /\
   accepts token_table rules start_rule "NHex" = Some true.
 Proof. vm_compute. repeat split. Qed.
+
+(* the recogniser the check runs: with a memo table at the non-terminals (Model/Memo.v), same statement *)
+From GV Require Import Model.Memo Proofs.RecogMemo.
+Theorem C15_memo_recogniser_correct :
+  forall (g : grammar) fuel start w b,
+    recognise_m g fuel start w = Some b -> (b = true <-> Der g (NT start) w).
+Proof. exact recognise_m_spec. Qed.
+Print Assumptions C15_memo_recogniser_correct.
+
+Theorem C15_accepts_m_iff_derivable :
+  forall s b, accepts_m token_table rules start_rule s = Some b ->
+    (b = true <->
+     exists toks, lex token_table (S (String.length ("#" ++ s ++ "#"))) ("#" ++ s ++ "#") = Some toks /\
+                  Der rules (NT start_rule) (map fst toks)).
+Proof.
+  intros s b. unfold accepts_m.
+  destruct (lex token_table _ _) as [toks|] eqn:E.
+  - intro H. apply recognise_m_spec in H. split.
+    + intro Hb. exists toks. split; [reflexivity | apply H; exact Hb].
+    + intros (t & Ht & D). inversion Ht; subst t. apply H; exact D.
+  - intro H; inversion H; subst. split; [discriminate | intros (t & Ht & _); discriminate].
+Qed.
+Print Assumptions C15_accepts_m_iff_derivable.
+
+Example C15_examples_memo :
+  accepts_m token_table rules start_rule "Man(a1-2)[Man(a1-2)[Man(a1-2)[Man(a1-2)[Glc(a1-3)]Gal(a1-3)]Gal(a1-3)]Gal(a1-3)]Gal" = Some true /\
+  accepts_m token_table rules start_rule "Man(a1-4)[Gal(b1-3)]Glc" = Some true /\
+  accepts_m token_table rules start_rule "Glc#Man" = Some false /\
+  accepts_m token_table rules start_rule "Man(a1-4)" = Some false.
+Proof. vm_compute. repeat split. Qed.
